@@ -3,6 +3,7 @@ import WellenModel.Proofs.TimeTable
 import WellenModel.Proofs.Mt
 import WellenModel.Props.C04
 import WellenModel.Props.C01
+import WellenModel.Props.C02
 import WellenModel.Proofs.SplitFree
 import WellenModel.Proofs.Handover
 /-!
@@ -27,6 +28,8 @@ trusted) and appended sequentially. What is proved here:
   loaded signals are what ONE thread recording the concatenated per-chunk operations would have produced.
 * `C03_mt_eq_st_given_handover`: the composition — if both loads succeed and the per-chunk operations are the whole body's
   operations (`HandoverLexical`, the one assumption), both loads report the same change list for every signal.
+* `C03_segs_time_table` / `C03_mt_time_table`: the time table of the appended encoders is the specification's table for the
+  divided history (strictly increasing, every new maximum once), whatever the division and the block size.
 What is NOT proved is the purely lexical last step of `mt = st` for hand-over-safe bodies — that those per-chunk
 operations are the operations of the whole body; it is checked differentially against the Lean model of the chunked
 parser on every boundary alignment (see evidence). For bodies that are not hand-over safe the property is false for
@@ -387,5 +390,314 @@ theorem C03_mt_eq_st_given_handover (c : Codec) (d : Decls) (rm : RealMap) (body
   cases g1
   exact ⟨chgM, sM, sS, h1, h2, g2⟩
 
+
+/-! the time table of a recording made by several encoders -/
+
+theorem finishBlock_clean' (c : Codec) (x : Enc) : (finishBlock c x).hasNewData = false := by
+  unfold finishBlock
+  by_cases h : x.hasNewData = true
+  · simp [h]
+  · simp [h]
+
+theorem finishBlock_idem (c : Codec) (x : Enc) : finishBlock c (finishBlock c x) = finishBlock c x :=
+  finishBlock_clean c _ (finishBlock_clean' c x)
+
+/-- appending concatenates the time tables (no assumption on the encoders) -/
+theorem append_table_gen (c : Codec) (a b e : Enc) (h : append c a b = some e) :
+    e.hasNewData = false ∧ (finish c e).2 = (finish c a).2 ++ (finish c b).2 := by
+  have da := finishBlock_clean' c a
+  unfold append at h
+  simp only at h
+  have hfin : ∀ x : Enc, x.hasNewData = false → (finish c x).2 = x.blocksRev.reverse.flatMap (·.timeTable) := by
+    intro x hx
+    simp [finish, finishBlock_clean c x hx]
+  have hfa : (finish c a).2 = (finishBlock c a).blocksRev.reverse.flatMap (·.timeTable) := rfl
+  have hfb : (finish c b).2 = (finishBlock c b).blocksRev.reverse.flatMap (·.timeTable) := rfl
+  cases hbr : (finishBlock c b).blocksRev.reverse with
+  | nil =>
+    rw [hbr] at h
+    simp only [Option.some.injEq] at h
+    subst h
+    refine ⟨da, ?_⟩
+    rw [hfin _ da, hfa, hfb, hbr]; simp
+  | cons bf rest =>
+    rw [hbr] at h
+    simp only at h
+    cases har : (finishBlock c a).blocksRev with
+    | nil =>
+      rw [har] at h
+      simp only [Option.some.injEq] at h
+      subst h
+      refine ⟨da, ?_⟩
+      rw [hfin _ (by simpa using da), hfa, hfb]
+      simp [har, hbr]
+    | cons al r2 =>
+      rw [har] at h
+      simp only at h
+      split at h
+      · simp only [Option.some.injEq] at h
+        subst h
+        refine ⟨da, ?_⟩
+        rw [hfin _ (by simpa using da), hfa, hfb]
+        simp [har, List.flatMap_append, hbr]
+      · cases h
+
+theorem appendAll_table (c : Codec) : ∀ (encs : List Enc) (a e : Enc), appendAll c a encs = some e →
+    (finish c e).2 = (finish c a).2 ++ encs.flatMap (fun b => (finish c b).2) := by
+  intro encs
+  induction encs with
+  | nil => intro a e h; simp [appendAll] at h; subst h; simp
+  | cons b r ih =>
+    intro a e h
+    simp only [appendAll] at h
+    cases hab : append c a b with
+    | none => rw [hab] at h; cases h
+    | some ab =>
+      rw [hab] at h
+      rw [ih ab e h, (append_table_gen c a b ab hab).2]
+      simp [List.append_assoc]
+
+theorem go_append_newmax (t : Nat) (r : List Nat) : ∀ (l : List Nat) (m : Nat), m < t → (∀ x ∈ l, x < t) →
+    strictPrefixMax.go m (l ++ t :: r) = strictPrefixMax.go m l ++ t :: strictPrefixMax.go t r := by
+  intro l
+  induction l with
+  | nil => intro m hm _; simp [strictPrefixMax.go, hm]
+  | cons u l ih =>
+    intro m hm hl
+    simp only [List.cons_append, strictPrefixMax.go]
+    have hu : u < t := hl u (by simp)
+    have hl' : ∀ x ∈ l, x < t := fun x hx => hl x (List.mem_cons_of_mem _ hx)
+    by_cases h : u > m
+    · simp only [h, if_true, List.cons_append]; rw [ih u hu hl']
+    · simp only [h, if_false]; exact ih m hm hl'
+
+/-- a timestamp greater than everything before it starts the table afresh -/
+theorem spm_append_newmax (a : List Nat) (t : Nat) (r : List Nat) (h : ∀ x ∈ a, x < t) :
+    strictPrefixMax (a ++ t :: r) = strictPrefixMax a ++ strictPrefixMax (t :: r) := by
+  cases a with
+  | nil => rfl
+  | cons x l =>
+    simp only [List.cons_append, strictPrefixMax]
+    rw [go_append_newmax t r l x (h x (by simp)) (fun y hy => h y (List.mem_cons_of_mem _ hy))]
+
+theorem go_le_last (l : List Nat) : ∀ (m : Nat), ∀ x ∈ m :: l, x ≤ ((m :: strictPrefixMax.go m l).getLast?).getD 0 := by
+  induction l with
+  | nil => intro m x hx; simp at hx; subst hx; simp [strictPrefixMax.go]
+  | cons u l ih =>
+    intro m x hx
+    simp only [strictPrefixMax.go]
+    by_cases h : u > m
+    · simp only [h, if_true]
+      have hlast : ((m :: u :: strictPrefixMax.go u l).getLast?) = ((u :: strictPrefixMax.go u l).getLast?) := by
+        simp [List.getLast?_cons_cons]
+      rw [hlast]
+      rcases List.mem_cons.mp hx with rfl | hx
+      · have := ih u u (by simp); omega
+      · exact ih u x hx
+    · simp only [h, if_false]
+      rcases List.mem_cons.mp hx with rfl | hx
+      · exact ih x x (by simp)
+      · rcases List.mem_cons.mp hx with rfl | hx
+        · have := ih m m (by simp); omega
+        · exact ih m x (List.mem_cons_of_mem _ hx)
+
+/-- the last entry of the table is the largest timestamp seen -/
+theorem spm_le_last (a : List Nat) : ∀ x ∈ a, x ≤ ((strictPrefixMax a).getLast?).getD 0 := by
+  cases a with
+  | nil => intro x hx; cases hx
+  | cons m l => simp only [strictPrefixMax]; exact go_le_last l m
+
+/-- in the specification, the first operation of a segment behind a split (when something has been recorded before) is a
+timestamp greater than everything before it -/
+theorem seg_starts_newmax (types : Array SigType) (s s' : Spec.St) (op : Op) (r : List Op) (pre : List Nat)
+    (hpre : pre ≠ []) (ht : s.ttRev.reverse = strictPrefixMax pre) (hnm : s.needNewMax = true) (hns : op ≠ .split)
+    (h : foldSpec types (op :: r) s = some s') : ∃ t, op = .time t ∧ ∀ x ∈ pre, x < t := by
+  rw [foldSpec_cons] at h
+  cases hs : Spec.step types s op with
+  | none => rw [hs] at h; cases h
+  | some s1 =>
+    have hne : s.ttRev ≠ [] := by
+      intro e
+      rw [e] at ht
+      cases pre with
+      | nil => exact hpre rfl
+      | cons a l => simp [strictPrefixMax] at ht
+    cases op with
+    | split => exact absurd rfl hns
+    | time t =>
+      refine ⟨t, rfl, ?_⟩
+      simp only [Spec.step] at hs
+      cases htr : s.ttRev with
+      | nil => exact absurd htr hne
+      | cons m rest =>
+        rw [htr] at hs
+        simp only at hs
+        by_cases hgt : t > m
+        · intro x hx
+          have := spm_le_last pre x hx
+          rw [← ht, htr] at this
+          simp at this
+          omega
+        · simp [hgt, hnm] at hs
+    | vcd a b c => simp [Spec.step, hnm] at hs
+    | raw a b c => simp [Spec.step, hnm] at hs
+    | real a b => simp [Spec.step, hnm] at hs
+
+theorem spm_nil_iff (l : List Nat) : strictPrefixMax l = [] ↔ l = [] := by
+  cases l <;> simp [strictPrefixMax]
+
+/-- the table of a recording divided into segments is the concatenation of the segments' own tables, provided the
+specification accepts the division (every later segment opens a new maximum) -/
+theorem segs_spm (types : Array SigType) : ∀ (segs : List (List Op)) (pre : List Nat) (s s' : Spec.St),
+    s.ttRev.reverse = strictPrefixMax pre → (∀ sg ∈ segs, NoSplit sg) →
+    foldSpec types (joinSegs segs) s = some s' →
+    strictPrefixMax (pre ++ segs.flatMap timesOf) =
+      strictPrefixMax pre ++ segs.flatMap (fun sg => strictPrefixMax (timesOf sg)) := by
+  intro segs
+  induction segs with
+  | nil => intro pre s s' _ _ _; simp
+  | cons sg ss ih =>
+    intro pre s s' ht hns h
+    have hj : joinSegs (sg :: ss) = .split :: (sg ++ joinSegs ss) := by simp [joinSegs]
+    rw [hj, foldSpec_cons] at h
+    -- the split step
+    have hsplit : ∃ s1, Spec.step types s .split = some s1 ∧ s1.ttRev = s.ttRev ∧ (s.ttRev ≠ [] → s1.needNewMax = true) := by
+      simp only [Spec.step]
+      by_cases he : s.ttRev.isEmpty = true
+      · exact ⟨s, by simp [he], rfl, fun hne => by simp [List.isEmpty_iff] at he; exact absurd he hne⟩
+      · exact ⟨{ s with needNewMax := true }, by simp [he], rfl, fun _ => rfl⟩
+    obtain ⟨s1, hs1, htt1, hnm1⟩ := hsplit
+    rw [hs1] at h
+    simp only [Option.bind_some] at h
+    rw [foldSpec_append] at h
+    cases hsg : foldSpec types sg s1 with
+    | none => rw [hsg] at h; cases h
+    | some s2 =>
+      rw [hsg] at h
+      simp only [Option.bind_some] at h
+      have ht1 : s1.ttRev.reverse = strictPrefixMax pre := by rw [htt1]; exact ht
+      have ht2 := spec_table types sg s1 s2 pre ht1 hsg
+      have hrec := ih (pre ++ timesOf sg) s2 s' ht2 (fun x hx => hns x (List.mem_cons_of_mem _ hx)) h
+      simp only [List.flatMap_cons]
+      rw [← List.append_assoc, hrec]
+      -- the segment's own table
+      have hseg : strictPrefixMax (pre ++ timesOf sg) = strictPrefixMax pre ++ strictPrefixMax (timesOf sg) := by
+        cases hp : pre with
+        | nil => simp [strictPrefixMax]
+        | cons p0 pr =>
+          cases hsgc : sg with
+          | nil => simp [timesOf, strictPrefixMax]
+          | cons op r =>
+            have hpre : pre ≠ [] := by rw [hp]; simp
+            have hne : s.ttRev ≠ [] := by
+              intro e
+              rw [e] at ht
+              have := (spm_nil_iff pre).mp ht.symm
+              exact hpre this
+            rw [hsgc] at hsg
+            obtain ⟨t, hop, hlt⟩ := seg_starts_newmax types s1 s2 op r pre hpre ht1 (hnm1 hne)
+              (hns sg (by simp) op (by rw [hsgc]; simp)) hsg
+            subst hop
+            rw [← hp]
+            have : timesOf (Op.time t :: r) = t :: timesOf r := rfl
+            rw [this]
+            exact spm_append_newmax pre t (timesOf r) hlt
+      rw [hseg]
+      simp [List.append_assoc]
+
+theorem timesOf_append (a b : List Op) : timesOf (a ++ b) = timesOf a ++ timesOf b := by
+  induction a with
+  | nil => rfl
+  | cons o r ih => cases o <;> simp [timesOf, ih]
+
+theorem timesOf_joinSegs (segs : List (List Op)) : timesOf (joinSegs segs) = segs.flatMap timesOf := by
+  induction segs with
+  | nil => rfl
+  | cons sg ss ih =>
+    have hj : joinSegs (sg :: ss) = .split :: (sg ++ joinSegs ss) := by simp [joinSegs]
+    rw [hj]
+    simp [timesOf, timesOf_append, ih]
+
+theorem mapM_tables (c : Codec) (tps : List SigType) : ∀ (segs : List (List Op)) (encs : List Enc),
+    segs.mapM (runOps c (newEnc tps)) = some encs →
+    encs.flatMap (fun b => (finish c b).2) = segs.flatMap (fun sg => strictPrefixMax (timesOf sg)) := by
+  intro segs
+  induction segs with
+  | nil => intro encs h; simp at h; subst h; rfl
+  | cons sg ss ih =>
+    intro encs h
+    simp only [List.mapM_cons] at h
+    cases hb : runOps c (newEnc tps) sg with
+    | none => rw [hb] at h; simp at h
+    | some b =>
+      rw [hb] at h
+      cases hr : ss.mapM (runOps c (newEnc tps)) with
+      | none => rw [hr] at h; simp at h
+      | some bs =>
+        rw [hr] at h
+        simp at h; subst h
+        simp only [List.flatMap_cons]
+        rw [ih bs hr, C02_timeTable_exact c tps sg b hb]
+
+/-- **the time table of a recording made by several encoders** (a multi-threaded load): whenever the specification denotes
+`(tt, sigs)` for the divided history, the appended encoders' time table is exactly `tt` — the timestamps greater than all
+earlier ones, each once, whatever the division and the block size -/
+theorem C03_segs_time_table (c : Codec) (tps : List SigType) (seg0 : List Op) (rest : List (List Op))
+    (h0 : NoSplit seg0) (hr : ∀ sg ∈ rest, NoSplit sg) (e : Enc)
+    (he : Spec.runSegs c tps (seg0 ++ joinSegs rest) = some e)
+    (tt : List Nat) (sigs : List (List (Nat × Spec.Value))) (hrun : Spec.run tps (seg0 ++ joinSegs rest) = some (tt, sigs)) :
+    (finish c e).2 = tt := by
+  unfold Spec.runSegs at he
+  rw [splitOps_joinSegs rest hr seg0 h0] at he
+  cases hm : (seg0 :: rest).mapM (runOps c (newEnc tps)) with
+  | none => rw [hm] at he; cases he
+  | some encs =>
+    rw [hm] at he
+    cases encs with
+    | nil => cases he
+    | cons e0 er =>
+      simp only at he
+      have htab := mapM_tables c tps (seg0 :: rest) (e0 :: er) hm
+      simp only [List.flatMap_cons] at htab
+      rw [appendAll_table c er e0 e he]
+      -- the specification's table
+      obtain ⟨s, hs, htt, _⟩ := run_fold tps _ tt sigs hrun
+      unfold foldSpec at hs
+      have hs' : foldSpec tps.toArray (seg0 ++ joinSegs rest) (specInit tps) = some s := hs
+      rw [foldSpec_append] at hs'
+      cases h1 : foldSpec tps.toArray seg0 (specInit tps) with
+      | none => rw [h1] at hs'; cases hs'
+      | some s1 =>
+        rw [h1] at hs'
+        simp only [Option.bind_some] at hs'
+        have t1 := spec_table tps.toArray seg0 (specInit tps) s1 [] (by simp [specInit, strictPrefixMax]) h1
+        simp only [List.nil_append] at t1
+        have t2 := spec_table tps.toArray (joinSegs rest) s1 s (timesOf seg0) t1 hs'
+        rw [timesOf_joinSegs] at t2
+        have t3 := segs_spm tps.toArray rest (timesOf seg0) s1 s t1 hr hs'
+        rw [htt, t2, t3]
+        exact htab
+
+
+/-- **a multi-threaded load reports the specification's time table** (C02 for this loading mode): if the load succeeds and the
+specification denotes `(tt, sigs)` for the per-chunk operations, the loaded time table is `tt` -/
+theorem C03_mt_time_table (c : Codec) (d : Decls) (rm : RealMap) (body : List Nat) (threads minChunk : Nat) (enc : Enc)
+    (h : readValues c d rm body (.multi threads minChunk) = .ok enc) :
+    ∃ ops, Spec.runSegs c d.sigTypes ops = some enc ∧
+      ∀ tt sigs, Spec.run d.sigTypes ops = some (tt, sigs) → (finish c enc).2 = tt ∧ tt.Pairwise (· < ·) := by
+  obtain ⟨seg0, rest, hmap, hrun⟩ := C03_mt_load_is_store_run c d rm body threads minChunk enc h
+  have hns : ∀ sg ∈ seg0 :: rest, NoSplit sg := by
+    intro sg hsg
+    obtain ⟨ch, _, hch⟩ := mapM_mem _ _ _ hmap sg hsg
+    exact chunkOps_nosplit d rm body ch sg hch
+  refine ⟨seg0 ++ joinSegs rest, hrun, ?_⟩
+  intro tt sigs hden
+  have htt := C03_segs_time_table c d.sigTypes seg0 rest (hns seg0 (by simp))
+    (fun sg hsg => hns sg (List.mem_cons_of_mem _ hsg)) enc hrun tt sigs hden
+  refine ⟨htt, ?_⟩
+  obtain ⟨s, hs, hts, _⟩ := run_fold d.sigTypes _ tt sigs hden
+  have := spec_table d.sigTypes.toArray _ (specInit d.sigTypes) s [] (by simp [specInit, strictPrefixMax]) hs
+  rw [hts, this]
+  exact spm_pairwise _
 
 end Wellen.VcdBody
